@@ -334,10 +334,12 @@ func (r *c08Run) converge(what string) bool {
 	}
 	var e *c08Expect
 	var last string
+	var foreign string // a displayed line that does not belong to the input that is loaded (last poll)
 	limit := 100000
 	for try := 0; try < 3; try++ {
 		deadline := time.Now().Add(10 * time.Second)
 		for i := 0; time.Now().Before(deadline); i++ {
+			foreign = ""
 			if cr := s.Crash(); cr != "" {
 				r.disagree("spec", "C08.no_crash", cr, "no panic")
 				return false
@@ -395,6 +397,17 @@ func (r *c08Run) converge(what string) bool {
 						break
 					}
 				}
+				if !ok {
+					// every line of generation g starts with "g<g> " (c08Lines)
+					pre := fmt.Sprintf("g%d ", e.gen)
+					for k := 0; k < n; k++ {
+						if !strings.HasPrefix(full.Matches[k].Text, pre) {
+							foreign = fmt.Sprintf("reading=false, generation %d loaded (total=%d), query=%q matches=%d, but position %d shows %q",
+								e.gen, full.TotalCount, full.Query, full.MatchCount, k, full.Matches[k].Text)
+							break
+						}
+					}
+				}
 			}
 			if ok {
 				if !e.modelOK {
@@ -417,6 +430,12 @@ func (r *c08Run) converge(what string) bool {
 		}
 		exp = map[string]interface{}{"when": what, "generation": e.gen, "query_line": r.query, "query_in_effect": e.query, "sort": e.sort,
 			"nth": c08Nths[e.nth], "excluded": e.deny, "total": e.total, "matches": len(e.list), "first": head, "model": e.modelMsg}
+	}
+	if foreign != "" {
+		// still so at the last poll of the last attempt (30 s after loading ended): the list holds lines of an input
+		// that has been replaced
+		r.disagree("spec", "C08.no_lines_of_replaced_input", foreign, exp)
+		return false
 	}
 	r.disagree("spec", "C08.converges_to_fresh_filter", last, exp)
 	return false
@@ -874,7 +893,12 @@ func c08Size(r *RNG, stream int) int {
 
 // stream 0: general; 1: payload action immediately followed by a query change while loading (request merging);
 // 2: typing across the end of loading of a big input; 3: search on/off and action lists ending in toggle-search;
-// 4: exclude while a reload has not produced its first line yet / right after its first lines
+// 4: exclude while a reload has not produced its first line yet / right after its first lines;
+// 5: an input is REPLACED by one of the same (or nearly the same) number of lines but other lines - reload and
+//    reload-sync, the new input arriving in one burst (no reader-progress event between the restart and the end of
+//    input), after a start delay, or in pieces - while the query is one that was already searched to the end on the
+//    old input, and the earlier queries are visited again afterwards: whatever identifies "the same search" inside
+//    fzf (item count, revision, query string, sort) must tell the two inputs apart
 func c08GenCase(r *RNG, stream int) *c08Case {
 	cs := &c08Case{Seed: r.Next() % 1000000, NoSort: r.Chance(1, 4), Tac: r.Chance(1, 5),
 		Tiebreak: Pick(r, []string{"", "", "begin", "end,length", "index", "chunk"}),
@@ -938,6 +962,70 @@ func c08GenCase(r *RNG, stream int) *c08Case {
 		}
 	}
 	switch stream {
+	case 5:
+		n := Pick(r, []int{r.Range(1, 40), r.Range(41, 99), 100, r.Range(101, 600), 200, r.Range(601, 3000), 1000, r.Range(3001, 12000)})
+		cs.Gens = []c08Gen{{N: n}}
+		seen := []string{cs.Query0}
+		visit := func(q string) {
+			if q == "" && r.Bool() {
+				add(c08Act{K: "clear", Pause: pause()})
+			} else {
+				add(c08Act{K: "query", S: q, Pause: pause()})
+			}
+			add(c08Act{K: "checkpoint", Pause: pause()})
+		}
+		fresh := func() string {
+			if r.Chance(1, 3) {
+				return c08Query(r)
+			}
+			return Pick(r, []string{"", "a", "b", "1", "g", "ab", "2", "g0", "g1", "0", "c", "e 1"})
+		}
+		add(c08Act{K: "checkpoint", Pause: pause()})
+		for k, m := 0, r.Range(1, 3); k < m; k++ {
+			q := fresh()
+			visit(q)
+			seen = append(seen, q)
+		}
+		if r.Chance(1, 2) {
+			visit(Pick(r, seen)) // the query in force when the input is replaced is an old one
+		}
+		if r.Chance(1, 5) {
+			add(c08Act{K: Pick(r, []string{"sort", "exclude", "select"}), Pause: pause()})
+		}
+		for round, m := 0, r.Range(1, 2); round < m; round++ {
+			size := n
+			switch r.Intn(8) {
+			case 0:
+				size = n + 1
+			case 1:
+				size = max(1, n-1)
+			case 2:
+				size = r.Range(1, 2*n+10)
+			}
+			g := c08Gen{N: size}
+			switch r.Intn(6) {
+			case 0, 1:
+				g.Head = r.Range(30, 400) // starts late, then one burst
+			case 2:
+				if size > 2 {
+					g.Cuts = []int{r.Range(1, size-1)} // two bursts
+					g.Sleeps = []int{r.Range(5, 300)}
+				}
+			}
+			cs.Gens = append(cs.Gens, g)
+			add(c08Act{K: Pick(r, []string{"reload", "reloadsync", "reloadsync"}), Gen: len(cs.Gens) - 1, Pause: pause()})
+			if r.Chance(2, 3) {
+				add(c08Act{K: "checkpoint", Pause: pause()})
+			}
+			for k, m := 0, r.Range(1, 3); k < m; k++ {
+				visit(Pick(r, seen))
+			}
+			if r.Chance(1, 3) {
+				q := fresh()
+				visit(q)
+				seen = append(seen, q)
+			}
+		}
 	case 4:
 		// exclusion while a reload is under way (before its first line / right after its first lines)
 		cs.Gens = []c08Gen{{N: r.Range(50, 3000)}}
@@ -1125,7 +1213,7 @@ func c08Parallel(c *Ctx, cases []*c08Case, par int) {
 }
 
 func runC08(c *Ctx) {
-	c.Rep.Rule = "one case = one interactive session (pty + --listen): input of 50..200000 lines from a fast or slow writer (stdin, FZF_DEFAULT_COMMAND, start:reload), 3..20 actions (typing, deleting, clear-query, change-query, toggle-sort, exclude, exclude-multi, change-nth, reload, reload-sync, search on/off, action lists ending in toggle-search) with pauses of 0..50 ms, then quiescence; the list must equal a fresh fzf --filter as a sequence; non-trivial = converged, at least 3 actions and one query edit; distinct by JSON of the case"
+	c.Rep.Rule = "one case = one interactive session (pty + --listen): input of 50..200000 lines from a fast or slow writer (stdin, FZF_DEFAULT_COMMAND, start:reload), 3..20 actions (typing, deleting, clear-query, change-query, toggle-sort, exclude, exclude-multi, change-nth, reload, reload-sync, search on/off, action lists ending in toggle-search) with pauses of 0..50 ms, then quiescence; a stream of sessions replaces the input by one of the same (or nearly the same) number of lines and visits the earlier queries again; the list must equal a fresh fzf --filter as a sequence; non-trivial = converged, at least 3 actions and one query edit; distinct by JSON of the case"
 	if c.Replay != "" {
 		var cs c08Case
 		b, err := os.ReadFile(c.Replay)
@@ -1158,6 +1246,11 @@ func runC08(c *Ctx) {
 	for i := 0; i < n; i++ {
 		stream := []int{0, 4, 0, 1, 1, 2, 3, 0, 4, 3, 2, 0, 1}[i%13]
 		cases = append(cases, c08GenCase(c.Rng.Fork(), stream))
+	}
+	// stream 5 (an input replaced by one of the same size) comes on top of the rotation above, from forks taken
+	// after it, so that the cases of the other streams are the same as before for a given seed
+	for i, n5 := 0, c.N(48, 600); i < n5; i++ {
+		cases = append(cases, c08GenCase(c.Rng.Fork(), 5))
 	}
 	c08Parallel(c, append(corpus, cases...), 10)
 	c.Rep.Extra["sessions"] = len(corpus) + len(cases)
